@@ -181,6 +181,33 @@ class C02:
 REDUCED = [b"]", b"}", b"(", b"K\x00", b"K\x01", b"a", b"e", b"s", b"q\x00", b"q\x01", b"h\x00", b"h\x01", b"2", b"0", b"\x85", b"\x86", b"t"]
 
 
+_NAN = re.compile(r"D[7f]ff(?!0{13})[0-9a-f]{13}")
+
+
+def pvm_tie(ctx, datas, oracle_answers):
+    """The Lean model of CPython's unpickler (Ogorek/Pvm.lean) against the real one on the same bytes: same object, same
+    number of bytes consumed, an exception exactly when CPython raises. Inputs the model declines are counted."""
+    lean = C.run_sharded(C.run_lean, [f"pvm {hexs(d)}" for d in datas])
+    for d, o, l in zip(datas, oracle_answers, lean):
+        if o == "TOOBIG" or "#cycle" in o and l == "FUEL":
+            continue
+        ctx.count("pvm-model:" + l.split(" ")[0])
+        oo = "EXC" if o.startswith("EXC") else o
+        # the text "nan" is the platform's quiet NaN for CPython and Go's NaN (another payload) for the shared float reader
+        ctx.tie(f"pvm {hexs(d)[:3000]}", _NAN.sub("Dnan", oo), _NAN.sub("Dnan", l),
+                what="Lean model of CPython's unpickler vs CPython (pickle._Unpickler)")
+
+
+def long_line_programs():
+    """Text opcodes whose newline-terminated argument spans one, two, three and more 4 KiB reader buffers."""
+    out = []
+    for n in (4090, 4095, 4096, 4097, 8190, 8192, 8193, 9000, 12289, 20000, 70000):
+        out += [b"V" + b"a" * n + b"\n.", b"S'" + b"b" * n + b"'\n.", b"P" + b"c" * n + b"\n.",
+                b"cmod\n" + b"N" * n + b"\n.", b"c" + b"m" * n + b"\nname\n.", b"(V" + b"\\u20ac" * (n // 6) + b"\nV" + b"d" * n + b"\nt."]
+    out += [b"I" + b"1" * 4200 + b"\n.", b"L" + b"7" * 4250 + b"L\n.", b"F" + b"0" * 9000 + b"1.5\n.", b"}p" + b"0" * 9000 + b"1\ng1\n."]
+    return out
+
+
 def short_programs(rng, maxlen, sample=None):
     import itertools
     out = []
@@ -229,16 +256,22 @@ def sharing_programs():
 
 class C06:
     prop = "C06"
-    lean_module = "Ogorek.Props.C06"
-    theorems = ["Ogorek.C02_memo_keys", "Ogorek.C06_dup_same", "Ogorek.C06_get_same", "Ogorek.C06_dict_shared", "Ogorek.C06_K1_witness", "Ogorek.C06_ref_appends_shared"]
-    trusted_base = TB_PY
+    lean_module = "Ogorek.Props.C01Pvm"
+    theorems = ["Ogorek.C01_C03_agree", "Ogorek.C02_memo_keys", "Ogorek.C06_dup_same", "Ogorek.C06_get_same", "Ogorek.C06_dict_shared",
+                "Ogorek.C06_K1_witness", "Ogorek.C06_ref_appends_shared"]
+    trusted_base = TB_PY + ["Ogorek/Pvm.lean as a model of CPython's pickle._Unpickler (hand-written from pickle.py; compared with the real CPython on "
+                            "every generated program of this check; shared opcode-argument readers, so canonical text arguments only)"]
     level_text = ("Lean theorems: the memo keys of all PUT/GET widths and MEMOIZE form one key space (C02_memo_keys); DUP and GET push the very "
                   "value that is on the stack / in the memo — for dicts, which live in the heap, the same object that later SETITEM(S) "
                   "extend (C06_dup_same, C06_get_same); in the list-by-reference machine (the decoder with K1 repaired) an APPEND through "
                   "one reference is seen through every other (C06_ref_appends_shared) while in the code it is not (C06_K1_witness) — "
-                  "known finding K1. PARTIAL: no closed simulation theorem between the decoder and a Lean model of CPython's unpickler; "
-                  "the statement is decided per run against the real CPython unpickler on generated and exhaustively enumerated programs, "
-                  "K1 runs being exactly those on which the value- and reference-list machines of the model differ.")
+                  "known finding K1. On the programs the encoder itself writes the statement is a theorem: og-rek's decoder and the Lean model "
+                  "of CPython's unpickler both accept exactly those bytes and return the value / its documented Python counterpart "
+                  "(C01_C03_agree, from C03_roundtrip and C01_pvm_table). PARTIAL: no simulation theorem between the two machines on "
+                  "arbitrary programs (K1 and K6 make them differ where lists / NaN objects are shared); there the statement is decided "
+                  "per run against the real CPython unpickler on generated and exhaustively enumerated programs (K1 runs being exactly "
+                  "those on which the value- and reference-list machines of the model differ), and the Lean model of CPython's "
+                  "unpickler is compared with the real one on the same programs.")
     level_note = "trusted: Lean kernel + standard axioms; decoder model (both list semantics); CPython's pure-Python unpickler as reference"
     technique = "Lean 4 proof (machine lemmas, K1 witness) + differential correspondence against CPython's unpickler on typed-grammar and exhaustive short programs"
     rule = ("programs from a typed grammar over an abstract stack of value kinds (every opcode variant og-rek supports, PUT/GET in all "
@@ -249,7 +282,7 @@ class C06:
 
     def run(self, ctx):
         rng = ctx.rng
-        progs = own_corpus("C06") + sharing_programs() + short_programs(rng, ctx.scale(4, 5), sample=ctx.scale(0.25, 0.2))
+        progs = own_corpus("C06") + sharing_programs() + long_line_programs() + short_programs(rng, ctx.scale(4, 5), sample=ctx.scale(0.25, 0.2))
         nan = b"G\x7f\xf8\x00\x00\x00\x00\x00\x00"     # one NaN object used as a key twice (K6), and two NaN objects (no finding)
         progs += [b"}" + nan + b"q\x00K\x01sh\x00K\x02s.", b"(" + nan + b"q\x00K\x01h\x00K\x02d.", b"}" + nan + b"2K\x01sK\x02s.",
                   b"}" + nan + b"q\x00\x85K\x01sh\x00\x85K\x02s.", b"}" + nan + b"K\x01s" + nan + b"K\x02s."]
@@ -259,6 +292,7 @@ class C06:
             progs.append(g.gen())
         progs = list(dict.fromkeys(progs))
         py = C.run_sharded(C.run_py, [f"load {hexs(p)}" for p in progs])
+        pvm_tie(ctx, progs, py)
         lines, meta = [], []
         for p, o in zip(progs, py):
             ctx.count("cpython:" + o.split(" ")[0])
@@ -519,18 +553,34 @@ def persid_not_ascii(v, p):
 
 class C01:
     prop = "C01"
-    lean_module = "Ogorek.Props.C01"
-    theorems = ["Ogorek.C01_int_forms", "Ogorek.C01_bytes_latin1", "Ogorek.C03_int", "Ogorek.C12_reject", "Ogorek.C01_K3_witness"]
-    trusted_base = TB_PY + ["dict keys of the generated values are pairwise unequal under Python == (otherwise Python itself merges them)"]
-    level_text = ("Lean theorems: every integer is written in a form that reads back as that integer and the form is chosen by value and "
-                  "protocol (C01_int_forms, C03_int); Bytes below protocol 3 are written as _codecs.encode of their latin-1 decoding, whose "
-                  "UTF-8 text decodes back to the same bytes (C01_bytes_latin1); a Go string that is not UTF-8 is written unchanged into a "
-                  "unicode opcode (C01_K3_witness) — known finding K3. PARTIAL: the closed theorem 'PVM(encode v) = table(v)' needs a Lean "
-                  "model of CPython's unpickler and the codec inverse lemmas and is not closed; the statement is decided per run: the "
-                  "implementation's bytes are loaded by the real CPython unpickler and compared with the documented table for every "
-                  "generated value x protocol x StrictUnicode, and the model must emit the same bytes.")
-    level_note = "trusted: Lean kernel + standard axioms; encoder model; CPython's unpickler as the meaning of the bytes"
-    technique = "Lean 4 proof (number / latin-1 lemmas, K3 witness) + differential correspondence of emitted bytes + CPython load of the implementation's output against the documented table"
+    lean_module = "Ogorek.Props.C01Pvm"
+    theorems = ["Ogorek.C01_pvm_table", "Ogorek.C01_pvm_table_bin", "Ogorek.C01_pvm_table_hook", "Ogorek.C01_C03_agree", "Ogorek.pt_val", "Ogorek.pyAssignAll_rep", "Ogorek.pyUtf8Valid_of_valid",
+                "Ogorek.C01_K3_pvm", "Ogorek.C01_K5_pvm", "Ogorek.C01_int_forms", "Ogorek.C01_bytes_latin1", "Ogorek.C03_int",
+                "Ogorek.C12_reject", "Ogorek.C01_K3_witness"]
+    trusted_base = TB_PY + ["Ogorek/Pvm.lean as a model of CPython's pickle._Unpickler with classes and persistent ids kept symbolic: hand-written "
+                            "from pickle.py, compared with the real CPython on every run (on the encoder's output for every generated value, and "
+                            "on the canonical programs of C06); it shares the opcode-argument readers with the decoder model, so only "
+                            "canonically formatted text arguments are modelled, and declines (UNMODELLED) frames that end inside the input, "
+                            "BUILD/INST/OBJ/NEWOBJ, exotic codec names and NaN keys met twice",
+                            "dict keys of the generated values are pairwise unequal under Python == (otherwise Python itself merges them)"]
+    level_text = ("Lean theorem C01_pvm_table, for ALL Go values of the documented table (nil/None, bool, every integer type incl. uint64 and "
+                  "*big.Int, float, string, ByteString, Bytes, []byte, slices, Tuples, builtin maps, Dicts, Class, Call, Ref, application "
+                  "structs, nested to any depth), ALL protocols 0-5 and both StrictUnicode settings: if Encode returns no error, the Lean "
+                  "model of CPython's unpickler loads exactly the bytes written without raising, consumes all of them, and returns the "
+                  "Python value `tableP c v` of the documented type table (numbers, text, payloads, key/value association under Python "
+                  "equality, nesting) - by mutual structural induction over the value (pt_val), on top of the parse lemmas of the round "
+                  "trip (both protocol-0 text codecs proved inverse), the latin-1 lemmas for Bytes below protocol 3 and a lemma that the "
+                  "machine's assignment sequence builds the table's dict (pyAssignAll_rep). Hypotheses = what CPython demands and og-rek does "
+                  "not check: unicode text is valid UTF-8 (finding K3; C01_K3_pvm shows the machine raises without it), a protocol-0 "
+                  "persistent id is ASCII (finding K5; C01_K5_pvm), dict keys hashable in Python with at most one NaN-holding key, a Call "
+                  "does not name _codecs.encode / bytes / bytearray, payloads < 2^31/2^32 bytes, and at protocol 0 FloatTextOK (as C03). "
+                  "Tie: the implementation's bytes must be the encoder model's; the real CPython loads them and must return the "
+                  "documented value; and the Lean machine must agree with the real CPython on those same bytes.")
+    level_note = ("trusted: Lean kernel + standard axioms; encoder model; the Lean model of CPython's unpickler (validated against CPython each "
+                  "run); CPython's unpickler as the meaning of the bytes")
+    technique = ("Lean 4 proof (a model of CPython's unpickler; structural induction over Go values: encoder output runs on that machine to the "
+                 "documented Python value) + differential correspondence of emitted bytes + real CPython load of the implementation's "
+                 "output against the documented table and against the Lean machine")
     rule = ("Go values of the documented table over the adversarial alphabet (both quotes, backslash, LF, CR, NUL, 0x1a, 0x7f-0xff, U+0100, "
             "U+2028, U+FFFD, astral runes, invalid UTF-8), ints of every width at +-2^k+d incl. uint64 above 2^63 and big.Int, every float "
             "class, lengths 0/1/255/256/65536, nesting to depth 4, maps/Dicts with Python-distinct keys, Calls, Refs, application "
@@ -598,6 +648,7 @@ class C01:
             elif "PANIC" in g:
                 ctx.violate("Encode panicked", line[:3000], "bytes or error", g[:300])
         loaded = C.run_sharded(C.run_py, load_lines)
+        pvm_tie(ctx, [m[4] for m in load_meta], loaded)
         for ll, (line, p, su, v, data), o in zip(load_lines, load_meta, loaded):
             ctx.evaluations += 1
             if o == "TOOBIG":
